@@ -21,8 +21,14 @@
 //           tables) is given an in-range (segment, axial position) by get_segment_axial_pos_num_for_ring_pair and occurs in
 //           get_all_ring_pairs_for_segment_axial_pos_num of exactly that (segment, axial position) and of no other; uncovered
 //           pairs occur nowhere; get_num_ring_pairs... equals the list size.
+//   ring tables vs integer reference : the same tables against a Michelogram written in plain integer arithmetic on ring numbers
+//           (segment = the one whose [min,max] ring difference interval contains ring2-ring1; axial position from the ring sum with
+//           the axial positions of a segment centred on the scanner); span-1 segments: (segment, axial) <-> ring pair are inverses.
 // Large (predefined) scanners: all detector pairs, ring pairs from {0,1,2,R-2,R-1}^2, TOF from {min,-1,0,1,max}; the ring-pair
 // check is always complete.
+// Real ring geometries (`rt=1`, ring tables only, both tiers): every predefined Scanner::Type with rings, native ring spacing and
+// number of rings, x span {1,2,3,5,7,9,11} x max ring difference {0,(span-1)/2,(R-1)/2,R-1} + the GE mixed-span layout; and every
+// distinct ring spacing of the scanner database on a generated cylinder with 1..10 (thorough: 1..64) rings (`rs=<Scanner::Type>`).
 #include "ref_pdi.h"
 #include <algorithm>
 #include <array>
@@ -76,7 +82,7 @@ static void check_ring_pairs(Run& run, const ProjDataInfoCylindrical& p)
   auto covering = [&](int rd) { int n = 0; for (int s = smin; s <= smax; ++s) if (rd >= p.get_min_ring_difference(s) && rd <= p.get_max_ring_difference(s)) ++n; return n; };
   // occurrences of every ring pair in the lists
   std::vector<std::vector<std::pair<int, int>>> occ((size_t)R * R);
-  long long n_sa = 0, n_sa2 = 0;
+  long long n_sa = 0, n_sa2 = 0, n_rp = 0, n_rp_unc = 0;
   for (int s = smin; s <= smax; ++s)
     for (int a = p.get_min_axial_pos_num(s); a <= p.get_max_axial_pos_num(s); ++a)
       {
@@ -106,11 +112,11 @@ static void check_ring_pairs(Run& run, const ProjDataInfoCylindrical& p)
         int s = 0, a = 0;
         const bool ok = p.get_segment_axial_pos_num_for_ring_pair(s, a, r1, r2) == Succeeded::yes;
         auto& o = occ[(size_t)r1 * R + r2];
-        const std::string rp = "ring pair (" + std::to_string(r1) + "," + std::to_string(r2) + ")";
-        ctx.count("ring_pairs_checked");
+        const struct LazyRp { int r1, r2; std::string operator+(const std::string& t) const { return "ring pair (" + std::to_string(r1) + "," + std::to_string(r2) + ")" + t; } } rp{ r1, r2 }; // text only when needed
+        ++n_rp;
         if (ncov == 0)
           {
-            ctx.count("ring_pairs_uncovered");
+            ++n_rp_unc;
             if (ok) run.viol("ringpairs", "uncovered_assigned", rp + " has an uncovered ring difference but get_segment_axial_pos_num_for_ring_pair says segment " + std::to_string(s) + " axial " + std::to_string(a));
             if (!o.empty()) run.viol("ringpairs", "uncovered_listed", rp + " has an uncovered ring difference but is listed in segment " + std::to_string(o[0].first) + " axial " + std::to_string(o[0].second));
             continue;
@@ -132,6 +138,120 @@ static void check_ring_pairs(Run& run, const ProjDataInfoCylindrical& p)
                      rp + " is assigned to (s" + std::to_string(s) + ",a" + std::to_string(a) + ") by get_segment_axial_pos_num_for_ring_pair but get_all_ring_pairs_for_segment_axial_pos_num lists it in:" + (w.empty() ? " nothing" : w));
           }
       }
+  ctx.count("ring_pairs_checked", n_rp);
+  ctx.count("ring_pairs_uncovered", n_rp_unc);
+}
+
+// ------------------------------------------------------------------------------------------------ ring tables vs integer reference
+// Reference Michelogram in plain integer arithmetic on ring numbers (no float, nothing taken from STIR but the DEFINITION of the
+// sampling: ring-difference interval and axial index range of every segment):
+//   segment(r1,r2)  = the s with min_rd[s] <= r2-r1 <= max_rd[s]
+//   axial(r1,r2)    = ((r1+r2-(R-1))*inc + amin+amax)/2, inc = 1 for a segment with a single ring difference, else 2
+//                     (ring sum <-> axial index, the axial positions of a segment being centred on the scanner)
+//   pairs(s,a)      = { (r1,r2) : segment = s, axial = a }
+// Compared: get_segment_axial_pos_num_for_ring_pair, get_all/num_ring_pairs_for_segment_axial_pos_num, and for segments with one ring
+// difference get_ring_pair_for_segment_axial_pos_num in both compositions (mutual inverses).
+struct RingRefStats { long long pairs = 0, seg_ax = 0, seg_ax_ge2 = 0, inverse = 0, skipped_parity = 0, outside_axial = 0, inexact_float = 0; };
+static RingRefStats check_ring_tables_vs_integer_reference(Run& run, const ProjDataInfoCylindrical& p)
+{
+  RingRefStats st;
+  const int R = p.get_scanner_ptr()->get_num_rings();
+  const int smin = p.get_min_segment_num(), smax = p.get_max_segment_num();
+  auto S = [](int v) { return std::to_string(v); };
+  // overlapping segments are not a partition by definition of the sampling: nothing to compare (observed by check_ring_pairs)
+  for (int s = smin; s <= smax; ++s)
+    for (int s2 = s + 1; s2 <= smax; ++s2)
+      if (p.get_min_ring_difference(s) <= p.get_max_ring_difference(s2) && p.get_min_ring_difference(s2) <= p.get_max_ring_difference(s)) return st;
+  typedef std::pair<int, int> RP;
+  for (int s = smin; s <= smax; ++s)
+    {
+      const int lo = p.get_min_ring_difference(s), hi = p.get_max_ring_difference(s);
+      const int amin = p.get_min_axial_pos_num(s), amax = p.get_max_axial_pos_num(s);
+      if (amax < amin) continue;
+      const int inc = lo == hi ? 1 : 2;
+      std::vector<std::vector<RP>> ref((size_t)(amax - amin + 1));
+      bool shifted = false;
+      for (int r1 = 0; r1 < R; ++r1)
+        for (int r2 = std::max(0, r1 + lo); r2 <= std::min(R - 1, r1 + hi); ++r2)
+          {
+            if (run.too_many()) return st;
+            const int num = (r1 + r2 - (R - 1)) * inc + amin + amax;
+            if (num % 2 != 0) { ++st.skipped_parity; shifted = true; continue; } // sampling shifted w.r.t. the rings: the statement is silent
+            const int a_ref = num / 2;
+            if (a_ref < amin || a_ref > amax) { ++st.outside_axial; continue; } // axially trimmed data: not enumerated, see assumptions
+            ref[(size_t)(a_ref - amin)].push_back(RP(r1, r2));
+            ++st.pairs;
+            const struct LazyRp { int r1, r2; std::string operator+(const std::string& t) const { return "ring pair (" + std::to_string(r1) + "," + std::to_string(r2) + ")" + t; } } rp{ r1, r2 };
+            int s2 = 0, a2 = 0;
+            const bool ok = p.get_segment_axial_pos_num_for_ring_pair(s2, a2, r1, r2) == Succeeded::yes;
+            if (!ok || s2 != s || a2 != a_ref)
+              run.viol("ringpairs", "pair_to_segax_vs_integer_reference",
+                       rp + " (ring difference " + S(r2 - r1) + ", ring sum " + S(r1 + r2) + ") belongs to (s" + S(s) + ",a" + S(a_ref) + ") by integer arithmetic, get_segment_axial_pos_num_for_ring_pair says "
+                           + (ok ? "(s" + S(s2) + ",a" + S(a2) + ")" : std::string("no")));
+            if (inc == 1 && ok && s2 >= smin && s2 <= smax && p.get_min_ring_difference(s2) == p.get_max_ring_difference(s2) && a2 >= p.get_min_axial_pos_num(s2)
+                && a2 <= p.get_max_axial_pos_num(s2))
+              {
+                int q1 = -1, q2 = -1;
+                p.get_ring_pair_for_segment_axial_pos_num(q1, q2, s2, a2);
+                ++st.inverse;
+                if (q1 != r1 || q2 != r2)
+                  run.viol("inverse", "ringpair_segax_ringpair", "single ring difference: " + (rp + (" -> (s" + S(s2) + ",a" + S(a2) + ") by get_segment_axial_pos_num_for_ring_pair -> ring pair (" + S(q1) + "," + S(q2) + ") by get_ring_pair_for_segment_axial_pos_num")));
+              }
+          }
+      if (shifted) continue;
+      for (int a = amin; a <= amax; ++a)
+        {
+          if (run.too_many()) return st;
+          std::vector<RP>& want = ref[(size_t)(a - amin)];
+          std::vector<RP> got(p.get_all_ring_pairs_for_segment_axial_pos_num(s, a));
+          const unsigned n = p.get_num_ring_pairs_for_segment_axial_pos_num(s, a);
+          std::sort(want.begin(), want.end());
+          std::sort(got.begin(), got.end());
+          ++st.seg_ax;
+          if (want.size() >= 2) ++st.seg_ax_ge2;
+          if (got != want || n != want.size())
+            {
+              auto lst = [&](const std::vector<RP>& v) { std::string w; for (size_t i = 0; i < v.size() && i < 6; ++i) w += " (" + S(v[i].first) + "," + S(v[i].second) + ")"; if (v.size() > 6) w += " ..."; return w.empty() ? std::string(" nothing") : w; };
+              run.viol("ringpairs", got.size() < want.size() ? "list_vs_integer_reference_missing" : (got.size() > want.size() ? "list_vs_integer_reference_extra" : "list_vs_integer_reference_different"),
+                       "(s" + S(s) + ",a" + S(a) + ") [ring differences " + S(lo) + ".." + S(hi) + ", ring sum " + S((2 * a - amin - amax) / inc + R - 1) + "] holds " + S((int)want.size()) + " ring pairs by integer arithmetic:" + lst(want)
+                           + "; get_all_ring_pairs_for_segment_axial_pos_num lists " + S((int)got.size()) + ":" + lst(got) + "; get_num_ring_pairs_for_segment_axial_pos_num=" + S((int)n));
+            }
+          if (inc == 1 && want.size() == 1)
+            {
+              int q1 = -1, q2 = -1;
+              p.get_ring_pair_for_segment_axial_pos_num(q1, q2, s, a);
+              ++st.inverse;
+              if (q1 != want[0].first || q2 != want[0].second)
+                {
+                  const bool valid = q1 >= 0 && q1 < R && q2 >= 0 && q2 < R;
+                  run.viol("inverse", !valid ? "segax_to_ringpair_invalid_ring" : (q2 - q1 != lo ? "segax_to_ringpair_wrong_ring_difference" : "segax_to_ringpair_vs_integer_reference"),
+                           "single ring difference " + S(lo) + ": (s" + S(s) + ",a" + S(a) + ") is ring pair (" + S(want[0].first) + "," + S(want[0].second) + ") by integer arithmetic, get_ring_pair_for_segment_axial_pos_num gives (" + S(q1) + "," + S(q2) + ")");
+                }
+              else
+                {
+                  int s2 = 0, a2 = 0;
+                  const bool ok = p.get_segment_axial_pos_num_for_ring_pair(s2, a2, q1, q2) == Succeeded::yes;
+                  if (!ok || s2 != s || a2 != a)
+                    run.viol("inverse", "segax_ringpair_segax", "single ring difference: (s" + S(s) + ",a" + S(a) + ") -> ring pair (" + S(q1) + "," + S(q2) + ") -> " + (ok ? "(s" + S(s2) + ",a" + S(a2) + ")" : std::string("no")));
+                }
+            }
+        }
+      // vacuity indicator only (NOT part of the oracle): is the float quotient that STIR's tables are built from inexact for this segment?
+      if (p.m_offset.get_min_index() <= s && s <= p.m_offset.get_max_index() && p.ring_spacing > 0)
+        {
+          const volatile float q = 2 * p.m_offset[s] / p.ring_spacing;
+          if (q != std::floor(q)) ++st.inexact_float;
+        }
+    }
+  run.ctx.count("ringref_ring_pairs_vs_integer_reference", st.pairs);
+  run.ctx.count("ringref_seg_ax_lists_vs_integer_reference", st.seg_ax);
+  run.ctx.count("ringref_seg_ax_with_ge2_ring_pairs", st.seg_ax_ge2);
+  run.ctx.count("ringref_single_ring_difference_inverse_checks", st.inverse);
+  run.ctx.count("ringref_pairs_skipped_sampling_shifted_wrt_rings", st.skipped_parity);
+  run.ctx.count("ringref_pairs_outside_axial_range", st.outside_axial);
+  run.ctx.count("ringref_segments_with_inexact_float_ring_offset", st.inexact_float);
+  run.ctx.count("evaluations", st.pairs + st.seg_ax);
+  return st;
 }
 
 // ------------------------------------------------------------------------------------------------ detector pairs
@@ -370,17 +490,40 @@ static void check_det_pairs(Run& run, const P& p)
     ctx.sample(run.cs + " : " + std::to_string(n_pairs) + " pair evaluations, " + std::to_string(n_bins) + " bins (" + std::to_string(n_bins2) + " with >=2 events, max " + std::to_string(max_list) + "), " + std::to_string(n_no) + " pairs uncovered, " + std::to_string(n_outside) + " outside trimmed range");
 }
 
+// generated cylinder as rpdi::make_scanner(geom=cyl), but with the ring spacing of the predefined scanner `type` (a REAL ring spacing:
+// the generated scanners of ref_pdi.h all have 4 mm, which is exact in binary)
+static shared_ptr<Scanner> make_ring_spacing_scanner(const Cfg& c, int type)
+{
+  const Scanner proto(static_cast<Scanner::Type>(type));
+  const float ring_spacing = proto.get_ring_spacing();
+  if (!(ring_spacing > 0)) throw std::runtime_error("harness: predefined scanner without ring spacing");
+  const int D = c.D, R = c.R;
+  const float radius = 100.F, pitch = float(2 * M_PI * radius / D), bin_size = pitch / 2.F;
+  const int tb = rpdi::default_tb(D);
+  return shared_ptr<Scanner>(new Scanner(Scanner::User_defined_scanner, std::string("verif_ring"), D, R, D - 1, D / 2, radius, 0.F, ring_spacing, bin_size, 0.F, 1, 1, 1, tb, 1,
+                                         tb, 1, 0.15F, 511.F, (short)-1, -1.F, -1.F));
+}
+
 // ------------------------------------------------------------------------------------------------ one configuration
 static void run_case(vmc::Ctx& ctx, const std::string& cs)
 {
   Run run(ctx, Cfg::parse(cs));
   const Cfg& c = run.c;
-  ctx.current("geom=" + c.geom, cs);
+  // rt=1: ring tables only (real ring geometries); rs=<Scanner::Type>: generated cylinder with the ring spacing of that predefined scanner
+  int rt = 0, rs = -1;
+  {
+    auto m = vmc::kv(cs);
+    if (m.count("rt")) rt = atoi(m["rt"].c_str());
+    if (m.count("rs")) rs = atoi(m["rs"].c_str());
+    if (rt) run.cs += ";rt=" + std::to_string(rt);
+    if (rs >= 0) run.cs += ";rs=" + std::to_string(rs);
+  }
+  ctx.current("geom=" + c.geom, run.cs);
   ctx.count("configurations");
   shared_ptr<Scanner> sc;
   shared_ptr<ProjDataInfo> pdi;
   std::string what;
-  if (small::throws([&] { sc = rpdi::make_scanner(c, ctx.tmpdir); pdi = rpdi::make_pdi(c, sc); }, &what))
+  if (small::throws([&] { sc = rs >= 0 ? make_ring_spacing_scanner(c, rs) : rpdi::make_scanner(c, ctx.tmpdir); pdi = rpdi::make_pdi(c, sc); }, &what))
     {
       ctx.count("rejected_configs");
       return;
@@ -399,7 +542,7 @@ static void run_case(vmc::Ctx& ctx, const std::string& cs)
   // key fields: class family (Generic and BlocksOnCylindrical share their code), kind of axial compression
   //   none: every segment one ring difference; ge: ProjDataInfoGE; mixed: segments with one and with several ring differences
   //   (e.g. a truncated last segment); oddspan / evenspan
-  const std::string family = (c.geom == "blk" || c.geom == "gen") ? "generic" : "cylindrical";
+  const std::string family = (c.geom == "blk" || c.geom == "gen" || (rt && sc->get_scanner_geometry() != "Cylindrical")) ? "generic" : "cylindrical";
   const std::string comp = c.ge ? "ge" : (!compressed ? "none" : (single ? "mixed" : (c.span % 2 ? "oddspan" : "evenspan")));
   run.keybase = "family=" + family + ";comp=" + comp + ";sr=" + std::to_string(c.sr) + (c.hist ? ";derived=1" : "");
   if (vm > 1) ctx.count("configs_with_view_mashing");
@@ -412,6 +555,20 @@ static void run_case(vmc::Ctx& ctx, const std::string& cs)
 
   if (small::throws([&] {
         check_ring_pairs(run, *cyl);
+        const RingRefStats rst = check_ring_tables_vs_integer_reference(run, *cyl);
+        if (rt)
+          {
+            // real ring geometry: the Michelogram tables only (the detector-pair factor does not depend on the ring geometry)
+            ctx.count("ring_table_only_configs");
+            if (c.geom == "pre") ctx.count("ring_table_only_configs_predefined_scanner");
+            if (rst.inexact_float > 0) ctx.count("ring_table_only_configs_with_inexact_float_ring_offset");
+            ctx.maxi("max_R_ring_tables", sc->get_num_rings());
+            if (rst.seg_ax_ge2 > 0 || rst.inverse > 0) ctx.nontrivial(run.cs);
+            if (c.geom == "pre" && ctx.samples.size() < 9 && rst.inexact_float > 0 && c.span > 1 && c.md > 0 && run.nviol == 0)
+              ctx.sample(run.cs + " : " + sc->get_name() + ", " + std::to_string(sc->get_num_rings()) + " rings, " + std::to_string(rst.pairs) + " ring pairs and " + std::to_string(rst.seg_ax)
+                         + " (segment, axial position) lists against the integer Michelogram (" + std::to_string(rst.seg_ax_ge2) + " with >=2 ring pairs)");
+            return;
+          }
         if (run.nviol > 0)
           {
             // the detector-pair lists are built from the ring-pair lists: do not report the consequences a second time
@@ -469,6 +626,59 @@ static void add_samplings(std::vector<std::string>& out, Cfg base, bool full_pro
     }
 }
 
+// real ring geometries, ring tables only (`rt=1`): see the head of the file
+static void add_real_ring_geometries(std::vector<std::string>& out, bool thorough)
+{
+  auto samplings = [&](Cfg c, const std::string& suffix) {
+    const int R = c.R;
+    c.vm = 1; c.nt = 0; c.tm = 0;
+    for (int span : { 1, 2, 3, 5, 7, 9, 11 })
+      {
+        if (span > 2 * R - 1) continue;
+        std::vector<int> mds;
+        for (int md : { 0, (span - 1) / 2, (R - 1) / 2, R - 1 })
+          if (md >= (span - 1) / 2 && md <= R - 1 && std::find(mds.begin(), mds.end(), md) == mds.end()) mds.push_back(md);
+        for (int md : mds) { c.span = span; c.md = md; c.ge = 0; out.push_back(c.str() + suffix); }
+      }
+    std::vector<int> mds;
+    for (int md : { 1, (R - 1) / 2, R - 1 })
+      if (md >= 1 && md <= R - 1 && std::find(mds.begin(), mds.end(), md) == mds.end()) mds.push_back(md);
+    for (int md : mds) { c.span = 1; c.md = md; c.ge = 1; out.push_back(c.str() + suffix); }
+  };
+  // (a) every distinct ring spacing of the scanner database on a generated cylinder with few rings (simplest first)
+  std::vector<std::pair<int, shared_ptr<Scanner>>> pre;
+  for (int type = 0; type < (int)Scanner::User_defined_scanner; ++type)
+    {
+      shared_ptr<Scanner> sc;
+      if (small::throws([&] { sc.reset(new Scanner(static_cast<Scanner::Type>(type))); })) continue;
+      if (sc->get_num_rings() < 1 || sc->get_num_detectors_per_ring() < 2 || !(sc->get_ring_spacing() > 0)) continue;
+      pre.push_back({ type, sc });
+    }
+  std::vector<int> spacing_types;
+  for (auto& e : pre)
+    {
+      bool seen = false;
+      for (int t : spacing_types)
+        for (auto& f : pre) if (f.first == t && f.second->get_ring_spacing() == e.second->get_ring_spacing()) seen = true;
+      if (!seen) spacing_types.push_back(e.first);
+    }
+  const int Rmax = thorough ? 64 : 10;
+  for (int R = 1; R <= Rmax; ++R)
+    for (int t : spacing_types)
+      {
+        Cfg c; c.geom = "cyl"; c.D = 4; c.R = R; c.T = 0; c.mb = 3;
+        samplings(c, ";rt=1;rs=" + std::to_string(t));
+      }
+  // (b) every predefined scanner with rings, native geometry (Generic scanners would need a crystal map: not predefined)
+  for (auto& e : pre)
+    {
+      if (e.second->get_scanner_geometry() == "Generic") continue;
+      if (e.second->get_num_detectors_per_ring() % 2 != 0) continue;
+      Cfg c; c.geom = "pre"; c.type = e.first; c.D = e.second->get_num_detectors_per_ring(); c.R = e.second->get_num_rings();
+      samplings(c, ";rt=1");
+    }
+}
+
 static std::vector<std::string> enumerate(bool thorough)
 {
   std::vector<std::string> out;
@@ -485,6 +695,8 @@ static std::vector<std::string> enumerate(bool thorough)
         if (D >= 8) gen("blk", D, R, 0, thorough);
         gen("gen", D, R, 0, thorough);
       }
+  // block 1b: real ring geometries (ring spacings / ring counts of the scanner database), Michelogram tables only
+  add_real_ring_geometries(out, thorough);
   if (!thorough) return out;
   // block 2 (axial factor): small D, R up to 8, every span / max ring difference / segment reduction
   for (int D : { 4, 8 })
@@ -547,11 +759,19 @@ int main(int argc, char** argv)
   small::quiet();
   ctx.rule = "unit = one (scanner, sampling) configuration; per configuration ALL ordered detector pairs x ring pairs x unmashed TOF indices through "
              "get_bin_for_det_pos_pair and ALL bins through get_all/get_num_det_pos_pairs_for_bin, plus all ring pairs through the Michelogram API; "
-             "a configuration is non-trivial when at least one bin receives >= 2 events (compression/mashing) or the data are uncompressed (inverse maps checked)";
+             "a configuration is non-trivial when at least one bin receives >= 2 events (compression/mashing) or the data are uncompressed (inverse maps checked); "
+             "in addition the Michelogram tables (ring pair <-> (segment, axial position), lists, counts, span-1 inverses) of every configuration are compared with a plain-integer "
+             "reference, and are enumerated alone (rt=1) over the REAL ring geometries: every predefined scanner with rings (native ring spacing and ring count) and every distinct "
+             "ring spacing of the scanner database on a generated cylinder with 1..10 (thorough 1..64) rings, each x span {1,2,3,5,7,9,11} x max ring difference "
+             "{0,(span-1)/2,(R-1)/2,R-1} + the GE mixed-span layout; such a configuration is non-trivial when a (segment, axial position) holds >= 2 ring pairs or a span-1 inverse was checked";
   ctx.assume("'pair' = DetectionPositionPair up to its own equality: (pos1,pos2,t) == (pos2,pos1,-t)");
   ctx.assume("pairs whose bin falls outside a trimmed tangential or TOF range are 'assigned to no bin of the data' (counted, not failures)");
   ctx.assume("'ring difference covered' is decided from get_min/max_ring_difference of the segments (reference Michelogram), sign convention ring2-ring1");
   ctx.assume("TOF data with an even mashing factor: only the spatial part is checked (get_all_det_pos_pairs_for_bin assert()s an odd factor)");
+  ctx.assume("integer Michelogram reference: segment = the one whose [min,max] ring difference (as reported by the object = definition of the sampling) contains ring2-ring1; "
+             "axial position = ((ring1+ring2-(R-1))*inc + min_axial_pos+max_axial_pos)/2 with inc=1 for a single ring difference and 2 otherwise, i.e. the axial positions of a segment "
+             "are centred on the scanner (documented convention of ProjDataInfoCylindrical: get_m(min_axial_pos) == -get_m(max_axial_pos)); ring pairs for which this is not an integer "
+             "or outside the axial range are skipped and counted");
   ctx.assume("axial trimming (set_min/max_axial_pos_num) is not part of the statement and is not enumerated");
   ctx.assume("predefined scanners with > 2e7 pair evaluations: ring pairs from {0,1,2,R-2,R-1}^2 and TOF from {min,-1,0,1,max}, all detector pairs; ring-pair check always complete");
   if (ctx.replaying()) { run_case(ctx, ctx.replay); return ctx.finish(); }
